@@ -9,13 +9,23 @@ for d in sorted(glob.glob('/verif/seeded/*/')):
     m = json.load(open(mp))
     runs = m.get('check_runs', [])
     det = [r for r in runs if r.get('detected')]
-    if det:
-        tiers = [r['tier'] for r in det]
-        tier = 'quick' if 'quick' in tiers else tiers[0]
-        missed_before = any(not r.get('detected') for r in runs[:runs.index(det[0])])
+    last = runs[-1] if runs else {}
+    if last.get('detected'):
+        tier = last.get('tier', 'quick')
+        missed_before = any(not r.get('detected') for r in runs[:-1])
         res = tier + (' (after strengthening)' if missed_before else '')
+    elif m.get('outside_property'):
+        res = 'outside the property as quantified'
+    elif m.get('superseded_by_fix'):
+        res = ('was caught (%s); ' % det[0]['tier'] if det else '') + 'no longer a violation on HEAD: superseded by fix ' + m['superseded_by_fix']
+    elif m.get('detected_by_other_check'):
+        res = "NOT by this check; caught by %s's check" % m['detected_by_other_check']
+    elif m.get('outside_covered_scope'):
+        res = 'NOT caught: outside the scope the check covers'
+    elif det:
+        res = 'caught in %d of %d recorded runs, MISSED in the latest' % (len(det), len(runs))
     else:
-        res = 'outside the property as quantified' if m.get('outside_property') else 'NOT by this check'
+        res = 'NOT caught'
     if m.get('note'):
         res += ' — ' + m['note']
     cell = lambda s: (s or '').replace('|', '\\|').replace('\n', ' ')
